@@ -15,6 +15,8 @@ import (
 	"strings"
 	"time"
 
+	"go/types"
+
 	"golang.org/x/tools/go/packages"
 	"golang.org/x/tools/go/ssa"
 	"golang.org/x/tools/go/ssa/ssautil"
@@ -102,7 +104,12 @@ func main() {
 	smtlog := flag.String("smtlog", "", "write the SMT-LIB transcript here")
 	maxpaths := flag.Int("maxpaths", 20000, "path budget")
 	model := flag.String("model", "gfp:13", "field model: real | gfp:<prime>")
+	scan := flag.String("scan-map-ranges", "", "list every `range` over a map in the given package patterns (space separated) and exit")
 	flag.Parse()
+	if *scan != "" {
+		scanMapRanges(*dir, strings.Fields(*scan), *out)
+		return
+	}
 
 	cfg := &Config{Unwind: *unwind, MaxDepth: 200, MaxSteps: 2000000, MaxIndexSplit: 16, MaxSymIndex: 12, MaxPaths: *maxpaths}
 	registerCryptoStubs(cfg)
@@ -345,7 +352,7 @@ func runPath(in *Interp, entry *ssa.Function) (outcome, msg string) {
 				if rr == RUnknown {
 					st = "unknown"
 				}
-				in.failures = append(in.failures, Failure{Msg: "uncaught panic: " + x.Msg, Model: m, Path: in.ex.Trace(), Kind: "panic", Status: st})
+				in.failures = append(in.failures, Failure{Msg: "uncaught panic: " + x.Msg, Model: m, Path: in.ex.Trace(), Kind: "panic", Status: st, Chooses: in.ex.Chooses()})
 			}
 		default:
 			panic(r)
@@ -353,4 +360,82 @@ func runPath(in *Interp, entry *ssa.Function) (outcome, msg string) {
 	}()
 	in.call(FuncV{Fn: entry}, nil, nil)
 	return "ok", ""
+}
+
+
+// scanMapRanges lists every function of the given packages that ranges over a map
+// (the only source of run-to-run nondeterminism in sequential Go besides time/rand/goroutines).
+func scanMapRanges(dir string, patterns []string, out string) {
+	pcfg := &packages.Config{Mode: packages.LoadAllSyntax, Dir: dir,
+		Env: append(os.Environ(), "GOFLAGS=-mod=mod", "GOPROXY=off", "GOSUMDB=off", "GOTOOLCHAIN=local")}
+	pkgs, err := packages.Load(pcfg, patterns...)
+	if err != nil {
+		fatal(err)
+	}
+	if packages.PrintErrors(pkgs) > 0 {
+		fatal(fmt.Errorf("package load errors"))
+	}
+	prog, spkgs := ssautil.AllPackages(pkgs, 0)
+	type site struct {
+		Pkg, Func, Pos, Kind string
+	}
+	var sites []site
+	seen := map[*ssa.Function]bool{}
+	var visit func(fn *ssa.Function, pkg string)
+	visit = func(fn *ssa.Function, pkg string) {
+		if fn == nil || seen[fn] {
+			return
+		}
+		seen[fn] = true
+		for _, b := range fn.Blocks {
+			for _, ins := range b.Instrs {
+				switch x := ins.(type) {
+				case *ssa.Range:
+					if _, ok := x.X.Type().Underlying().(*types.Map); ok {
+						sites = append(sites, site{pkg, fn.String(), prog.Fset.Position(x.Pos()).String(), "map-range"})
+					}
+				case *ssa.Go:
+					sites = append(sites, site{pkg, fn.String(), prog.Fset.Position(x.Pos()).String(), "go"})
+				case *ssa.Select:
+					sites = append(sites, site{pkg, fn.String(), prog.Fset.Position(x.Pos()).String(), "select"})
+				}
+			}
+		}
+		for _, a := range fn.AnonFuncs {
+			visit(a, pkg)
+		}
+	}
+	for _, sp := range spkgs {
+		if sp == nil {
+			continue
+		}
+		sp.Build()
+		for _, m := range sp.Members {
+			switch x := m.(type) {
+			case *ssa.Function:
+				visit(x, sp.Pkg.Path())
+			case *ssa.Type:
+				if named, ok := x.Type().(*types.Named); ok {
+					for i := 0; i < named.NumMethods(); i++ {
+						visit(prog.FuncValue(named.Method(i)), sp.Pkg.Path())
+					}
+				}
+				for _, t := range []types.Type{x.Type(), types.NewPointer(x.Type())} {
+					ms := prog.MethodSets.MethodSet(t)
+					for i := 0; i < ms.Len(); i++ {
+						if f := prog.MethodValue(ms.At(i)); f != nil && f.Pkg == sp {
+							visit(f, sp.Pkg.Path())
+						}
+					}
+				}
+			}
+		}
+	}
+	sort.Slice(sites, func(i, j int) bool { return sites[i].Pos < sites[j].Pos })
+	b, _ := json.MarshalIndent(sites, "", " ")
+	if out != "" {
+		os.WriteFile(out, b, 0o644)
+	} else {
+		os.Stdout.Write(b)
+	}
 }
